@@ -21,24 +21,30 @@ PROPS = {
                 theorems=[], profiles=[("flow", 400, 30000), ("wf", 150, 10000)]),
     "C06": dict(level="translation_validation", modules=["SemVerif.Props.C06"],
                 theorems=[], profiles=[("wf", 500, 30000), ("chains", 400, 9330), ("chainsr", 200, 5000)]),
-    "C07": dict(level="translation_validation", modules=["SemVerif.Props.C07"],
-                theorems=[], profiles=[("chains", 1554, 55986), ("chainsr", 300, 20000), ("wf", 300, 20000)]),
+    "C07": dict(level="proof", modules=["SemVerif.Props.C07"],
+                theorems=["SemVerif.C07_fold_correct", "SemVerif.C07_fold_unique", "SemVerif.correct_unique"],
+                claim="Machine-checked Lean 4 theorems C07_fold_correct / C07_fold_unique: the analyzer's operator-stack fold yields, for every priority table, operand type and chain length, the unique tree with the chain's in-order tokens in which higher priority binds tighter and equal priority associates to the left (invariant: operator stack strictly increasing, every stacked subtree correct). The table the model runs with is regenerated from ast.rs on every run. PARTIAL: that the emitted ExpressionOperation instructions, read through their register operands, are this tree is not yet a theorem; it is decided on the implementation by the correspondence run (bracketing read off the stack = reference tree), exhaustively over the six priority classes up to length 4 (quick) / 6 (thorough) and randomly up to 40 operators.",
+                technique="Lean 4 proof (mutual structural induction / invariants) + differential correspondence of the executable model", profiles=[("chains", 1554, 55986), ("chainsr", 300, 20000), ("wf", 300, 20000)]),
     "C08": dict(level="translation_validation", modules=["SemVerif.Props.C08"],
                 theorems=[], profiles=[("wf", 600, 40000), ("wfclean", 300, 20000)]),
     "C09": dict(level="proof", modules=["SemVerif.Props.C09"],
                 theorems=["SemVerif.C09", "SemVerif.C09_function", "SemVerif.steps_functionBody"],
                 claim="Machine-checked Lean 4 theorem C09: for every program p, the output predicate of the property (result registers of every function stack strictly increasing, starting at 1) holds on the model's result `run p` — proved by showing that every analysis run is a chain of primitive steps (steps_functionBody, mutual structural induction over the AST, no bound on size or depth) each of which keeps the invariant 'all live blocks carry the same counter and it bounds every written register'. The model is tied to /repo on every run by the correspondence check (same projection, plus the same Lean predicate evaluated on the implementation's result).",
                 technique="Lean 4 proof (invariant over primitive steps, mutual structural induction) + differential correspondence of the executable model", profiles=[("wf", 400, 30000), ("wild", 400, 30000), ("fault1", 200, 10000)]),
-    "C10": dict(level="translation_validation", modules=["SemVerif.Props.C10"],
-                theorems=[], profiles=[("wf", 500, 30000), ("wild", 400, 30000), ("fault1", 100, 10000)]),
+    "C10": dict(level="proof", modules=["SemVerif.Props.C10"],
+                theorems=["SemVerif.C10_unique", "SemVerif.C10_unique_function", "SemVerif.St.probeLabel_fresh"],
+                claim="Machine-checked Lean 4 theorem C10_unique: for every program and every function no label is set twice (mutual structural induction over if / else / else-if / loop with the frame property 'a registered, unset label stays unset unless this construct allocated it'; the probe returns a name outside the function-wide registry and never runs out of fuel). PARTIAL: the resolution half (every jump target is set, for accepted well-formed programs without finding F3) is not yet a theorem; it is decided on the implementation by the correspondence run with the Lean predicate P_C10 (known finding F3 matched per instance).",
+                technique="Lean 4 proof (mutual structural induction / invariants) + differential correspondence of the executable model", profiles=[("wf", 500, 30000), ("wild", 400, 30000), ("fault1", 100, 10000)]),
     "C11": dict(level="translation_validation", modules=["SemVerif.Props.C11"],
                 theorems=[], profiles=[("wf", 800, 50000), ("wfclean", 300, 20000)]),
     "C12": dict(level="proof", modules=["SemVerif.Props.C12"],
                 theorems=["SemVerif.C12", "SemVerif.C12_function", "SemVerif.St.probeInner_fresh", "SemVerif.steps_functionBody"],
                 claim="Machine-checked Lean 4 theorem C12: for every program p the output predicate (internal names of FunctionArg/LetBinding pairwise distinct per function; every read / field read / assignment carries a record introduced by an earlier declaration) holds on the model's result — invariant over primitive steps; the freshness of a new let's name is the probe lemma probeInner_fresh (candidates a.(m+k) are pairwise distinct because decimal printing is injective, so fuel |registry|+1 is never exhausted). Tied to /repo by the correspondence run (projection: declaration and use records) with the colliding name pool.",
                 technique="Lean 4 proof (invariant over primitive steps + probe-loop lemma) + differential correspondence of the executable model", profiles=[("wf", 400, 30000), ("wild", 400, 30000), ("fault1", 200, 10000)]),
-    "C13": dict(level="translation_validation", modules=["SemVerif.Props.C13"],
-                theorems=[], profiles=[("wild", 800, 50000), ("loopout", 300, 10000), ("wf", 200, 10000)]),
+    "C13": dict(level="proof", modules=["SemVerif.Props.C13"],
+                theorems=["SemVerif.C13", "SemVerif.C13_function", "SemVerif.ESteps.panic_eq", "SemVerif.inv_panicSites"],
+                claim="Machine-checked: (1) every function of the Lean model is accepted as total by structural recursion (termination for every AST; the probe loops' fuel is proved sufficient); (2) theorem C13: for every program whose loop-flavoured if-bodies occur only inside loops the run does not panic (nothing below statement level can panic — the argument-index site is unreachable after the F1 repair; the only site is the documented expect); (3) inv_panicSites pins the unwrap/expect/index/+1 sites of the Rust source to the ones the model accounts for, regenerated on every run. RefCell borrows, integer overflow and native stack depth are outside the model and only exercised by running the real code under catch_unwind.",
+                technique="Lean 4 proof (mutual structural induction / invariants) + differential correspondence of the executable model", profiles=[("wild", 800, 50000), ("loopout", 300, 10000), ("wf", 200, 10000)]),
     "C14": dict(level="translation_validation", modules=["SemVerif.Props.C14"],
                 theorems=[], profiles=[("fault1", 400, 30000), ("wild", 600, 40000)]),
     "C15": dict(level="translation_validation", modules=["SemVerif.Props.C15"],
